@@ -86,3 +86,15 @@ def _kf_cubic_near_cusp(case, bucket, message, details, config):
         if vmax > 0 and 1e-4 * vmax < vmin < 1e-2 * vmax:
             return True
     return False
+
+
+@matcher('path_crop_shorter_than_joint_snapping')
+def _kf_crop_snap(case, bucket, message, details, config):
+    """C09: Path.cropped snaps segment parameters with np.isclose (rtol 1e-5 at t~1, atol 1e-8 at t~0); a crop
+    shorter than that resolution that straddles or touches a joint has its two ends snapped in opposite directions
+    and the result runs the wrong way round (nearly the whole path)."""
+    if not bucket.startswith('C09/path/cropped/'):
+        return False
+    if case.get('what') != 'path':
+        return False
+    return bool(case.get('kf04_witness')) or abs(case.get('T1', 0) - case.get('T0', 1)) < 1e-4
